@@ -109,6 +109,17 @@ def ints(vmax=70, bwmax=8):
                 elif st2 not in ('PyrtlError',):
                     F.add('const:accepts-unrepresentable:%s' % sg, dict(case, via='Const'),
                           [st2, str(c)[:60]], 'PyrtlError')
+    # Const refuses a non-positive bitwidth with PyrtlError whatever the value is (ints, negative ints, strings);
+    # (infer_val_and_bitwidth itself is specified for bitwidth >= 1 or None only)
+    for v in (0, 1, 5, -1, -3, "2'b01", "3'd5", "-2'd1"):
+        for bw in (0, -1, -7):
+            for signed in (False, True):
+                n += 1
+                pyrtl.reset_working_block()
+                st2, c = _try(lambda: pyrtl.Const(v, bitwidth=bw, signed=signed))
+                if st2 != 'PyrtlError':
+                    F.add('const:nonpositive-bitwidth', dict(v=v, bitwidth=bw, signed=signed, via='Const'),
+                          [st2, str(c)[:60]], 'PyrtlError')
     for b in (True, False):
         for bw in (None, 0, -1, 1, 2):
             for signed in (False, True):
@@ -424,4 +435,24 @@ def bitpatterns(maxlen=5, sample=None):
                 if st == 'ok':
                     return dict(failed=True, case=dict(pattern=pat, fields=list(vals)),
                                 observed=dict(accepted=v), expected='PyrtlError (value does not fit its field)')
+    # wide fields (exact integer arithmetic, nothing may go through a float) and negative field values (accepted
+    # in two's complement when they fit the field: the encoded word carries value mod 2**width)
+    for wf in (53, 54, 64, 65, 100):
+        pat = 'a' * wf + '01' + 'b' * 3
+        for av in ((1 << wf) - 1, (1 << (wf - 1)) + 1, (1 << 53) - 1 if wf > 53 else 5, 0x1234567 % (1 << wf)):
+            for bv in (0, 5, 7):
+                n += 1
+                st, v = _try(lambda: pyrtl.bitpattern_to_val(pat, av, bv))
+                exp = (av << 5) | (1 << 3) | bv
+                if st != 'ok' or v != exp:
+                    return dict(failed=True, case=dict(pattern="'a'*%d+'01bbb'" % wf, fields=[hex(av), bv]),
+                                observed=[st, hex(v) if st == 'ok' else v], expected=hex(exp))
+    for wf in (1, 2, 3, 5):
+        pat = 'a' * wf + '1' + 'b' * 2
+        for av in range(-(1 << (wf - 1)), 0):
+            n += 1
+            st, v = _try(lambda: pyrtl.bitpattern_to_val(pat, av, 2))
+            exp = ((av % (1 << wf)) << 3) | (1 << 2) | 2
+            if st != 'ok' or v != exp:
+                return dict(failed=True, case=dict(pattern=pat, fields=[av, 2]), observed=[st, v], expected=exp)
     return dict(failed=False, observed='ok', expected='ok', evaluations=n)
